@@ -10,7 +10,7 @@ RULE = ('cases = pair models (1..3 potentials x labels) x grids with nr a multip
         '{DL_POLY, DLPOLY}, a (cutoff, nr) lattice sweep, and every nr in 3..41 not divisible by 4 (x routes) for the rejection '
         'rule; every case executed; evaluations = table values compared; non-trivial = every accepted table '
         '(curved, pairwise distinct potentials, >= 8 grid points) and every rejection case')
-RULE += "; the same pair space as C01 (objects, numpy / abs() callables, long labels, pre-filled / symlinked OUTPUT_FILE, failed predecessor) plus SI-unit potentials with the caller's derivative step h, magnitudes below 1e-99, and the rejection rule for an empty potential list"
+RULE += "; the same pair space as C01 (objects, numpy / abs() callables, long labels, pre-filled / symlinked OUTPUT_FILE, failed predecessor) plus SI-unit potentials with the caller's derivative step h, magnitudes below 1e-99, and the rejection rule for an empty potential list; row counts that are not stated but derived (the default 1001, cutoff / dr) are rejected alike; 15 pairs of two-letter labels"
 ASSUMPTIONS = [
     'reference closed forms are the documented formulas (see C01)',
     'DL_POLY TABLE layout as encoded in mc/readers/pair.py: title (80 blanks), (2e15.8,i10), per potential (2a8) then ngrid/4 + ngrid/4 records (4e15.8)',
@@ -39,6 +39,11 @@ def cases(tier):
     for route in ('cls', 'wp'):
         for nr in (8, 16, 40):
             out.append(dict(route=route, cutoff=2.0, nr=nr, pots=[['A', 'B', 'nan-beyond-1.1']], spelling='DL_POLY', nan=True))
+    # the rule applies to the row count USED, however it comes about: the documented default (1001 rows) when nr is not given, a count derived from cutoff and dr
+    for sp in ('DL_POLY', 'DLPOLY'):
+        for lines in (['cutoff : 6.5'], [], ['cutoff : 1.0', 'dr : 0.1'], ['cutoff : 2.5', 'dr : 0.25'], ['dr : 0.01']):
+            for route in ('cfg', 'potable'):
+                out.append(dict(route=route, cutoff=0.0, nr=0, pots=[['A', 'B', 'buck']], spelling=sp, reject=True, tab_lines=lines))
     # the rule does not depend on what is tabulated: an empty potential list
     for n in (5, 6, 7, 9, 10, 11):
         for route in ('cls', 'wp'):
@@ -72,11 +77,14 @@ def run_reject(case):
                 V(viol, 'rejected-but-wrote', 'nr=%d rejected but %d bytes were written first' % (nr, len(fp.getvalue())))
         return dict(outcome='rejected:' + route, nontrivial=True, violations=viol)
     ini = PK.ini_for(case, case['spelling'])
+    if 'tab_lines' in case:
+        ini = '[Tabulation]\ntarget : %s\n%s\n[Pair]\nA-B : as.buck 1000.0 0.3 32.0\n' % (case['spelling'], ''.join(l + '\n' for l in case['tab_lines']))
+        nr = 'derived from %r' % (case['tab_lines'],)
     if route == 'cfg':
         try:
             tab = R.config_read(ini)
             data = R.write_tabulation(tab)
-            V(viol, 'not-rejected', 'nr=%d accepted by Configuration.read (%d bytes)' % (nr, len(data)))
+            V(viol, 'not-rejected', 'nr=%s accepted by Configuration.read (%d bytes)' % (nr, len(data)))
         except ConfigurationException:
             pass
         return dict(outcome='rejected:cfg', nontrivial=True, violations=viol)
@@ -84,9 +92,9 @@ def run_reject(case):
     if res.exc is not None:
         raise res.exc
     if not res.config_error:
-        V(viol, 'not-rejected', 'potable nr=%d target=%s: exit status %r, stderr %r' % (nr, case['spelling'], res.status, res.stderr[-200:]))
+        V(viol, 'not-rejected', 'potable nr=%s target=%s: exit status %r, stderr %r' % (nr, case['spelling'], res.status, res.stderr[-200:]))
     if res.out_exists and res.out_bytes:
-        V(viol, 'rejected-but-wrote', 'potable nr=%d: output file has %d bytes' % (nr, len(res.out_bytes)))
+        V(viol, 'rejected-but-wrote', 'potable nr=%s: output file has %d bytes' % (nr, len(res.out_bytes)))
     return dict(outcome='rejected:potable', nontrivial=True, violations=viol)
 
 
